@@ -562,6 +562,13 @@ class Exec:
         base = self.unwrap(st, base, node, "object")
         if isinstance(base.t, TAbs):
             ft = self.c.fields.get(base.t.name + "." + node.attr)
+            if ft is not None and ft.startswith("maybe "):
+                # duck typing: the attribute may be absent, reading it then raises AttributeError
+                ft = ft[6:]
+                has = self.uf("hasattr_%s_%s" % (base.t.name, node.attr), base.t.sort(), z3.BoolSort())(base.z)
+                if not st.spec:
+                    g = z3.And(*(st.guards + [z3.Not(has)])) if st.guards else z3.Not(has)
+                    st.pending_exc.append((g, "AttributeError"))
             if ft is not None:
                 t = parse_type(ft)
                 f = self.uf("fld_%s_%s" % (base.t.name, node.attr), base.t.sort(), t.sort())
@@ -1750,13 +1757,17 @@ class Exec:
         start = self.c.block.get("start")
         end = self.c.block.get("end")
         i0, i1 = 0, len(flat)
+        def has(s, key):
+            want = self.c.block.get(key)
+            return want is None or want in ast.unparse(s)
         if start:
-            idx = [i for i, s in enumerate(flat) if src_prefix(s).startswith(start)]
+            idx = [i for i, s in enumerate(flat) if src_prefix(s).startswith(start) and has(s, "start_contains")]
             if not idx:
                 raise Stale("block start anchor %r not found" % start)
             i0 = idx[0]
         if end:
-            idx = [i for i, s in enumerate(flat) if i >= i0 and src_prefix(s).startswith(end)]
+            idx = [i for i, s in enumerate(flat) if i >= i0 and src_prefix(s).startswith(end)
+                   and has(s, "end_contains")]
             if not idx:
                 raise Stale("block end anchor %r not found" % end)
             i1 = idx[-1] + 1 if self.c.block.get("end_inclusive", True) else idx[-1]
